@@ -285,7 +285,7 @@ def scenarios(draw, *, max_machines=6, max_obs=4, max_nodes=6,
         hot = {"capacity": need + draw(st.sampled_from([0, 1, 7, need, 9 * need]))}
         if draw(st.integers(0, 11)) == 0:
             # a buffer many orders of magnitude larger than the data (the repository's sample configurations use 5e11)
-            hot = {"capacity": need * 10 ** 10}
+            hot = {"capacity": draw(st.sampled_from([need * 10 ** 10, 2 ** 62 + need]))}       # the latter is beyond 2**53
         if sum(vols) % 3 == 0 and draw(st.integers(0, 2)) == 0:
             # boundary: all data together fill the hot buffer to EXACTLY the 60 % tiering threshold (not beyond it)
             hot = {"capacity": max(1, sum(vols) * 5 // 3)}
